@@ -358,7 +358,11 @@ func init() {
 			case helper && x.Kind == "rotation":
 				b.set2(model2d.RotateSolid(k.s2, x.S))
 			default:
-				b.set2(model2d.TransformSolid(t, k.s2))
+				mine := x.build()
+				b.set2(model2d.TransformSolid(mine, k.s2))
+				if tr, ok := mine.(*model2d.Translate); ok {
+					tr.Offset = tr.Offset.Add(model2d.XY(7.5, -3.25))
+				}
 			}
 			inv := t.Inverse()
 			b.under = func(p kit.V3) bool { return k.contains(from2(inv.Apply(c2(p)))) }
